@@ -37,7 +37,10 @@ class Indenter(PostLex, ABC):
         yield token
 
         text = token.value.decode('latin-1') if isinstance(token.value, bytes) else token
-        indent_str = text.rsplit('\n', 1)[1] # Tabs and spaces
+        indent_str = text.rpartition('\n')[2] # Tabs and spaces
+        if '\n' not in text or indent_str.strip(' \t'):
+            # No line break, or the last line holds a comment: there is no indentation to read
+            return
         indent = indent_str.count(' ') + indent_str.count('\t') * self.tab_len
 
         if indent > self.indent_level[-1]:
